@@ -1,11 +1,12 @@
 (* C01 — End-to-end fidelity: what an exporter is given is what a collector delivers.
    Only the property theorems; proofs in Proofs/E2E_lemmas.v (composition of the codec round
-   trip C15, the message layout C16/C02, the template decoding C03 and the framing C11). *)
+   trip C15, the message layout C16/C02, the template decoding C03 and the framing C11) and
+   Proofs/C01_lemmas.v (the SendSet bookkeeping around them: C01_oracle). *)
 From Coq Require Import List Bool Arith NArith String.
 From Coq.Strings Require Import Byte.
 From Verif.Base Require Import Bytes Outcome.
 From Verif.Model Require Import IE Codec Record SetB Msg Decode Frame E2E.
-From Verif.Proofs Require Import Decode_roundtrip E2E_lemmas.
+From Verif.Proofs Require Import Decode_roundtrip E2E_lemmas C01_lemmas.
 From Verif.Driver Require Import C11drv C01drv.
 Import ListNotations.
 Local Open Scope N_scope.
@@ -62,13 +63,35 @@ Theorem C01_tcp : forall obs q q' t t' tid tpl recs tb db tm segs,
 Proof. exact e2e_tcp. Qed.
 Print Assumptions C01_tcp.
 
-(* (5) NOT YET PROVED as a Coq statement (kept visible):
-     Theorem C01_oracle : forall c, c01_hyp c = true -> dtls_fits c = true -> c01_model c = c01_spec c.
-   i.e. inside the hypotheses the model of SendSet x 2 followed by the collector yields exactly
-   what the application handed over. (1)-(4) are its content for the messages CreateIPFIXMsg
-   builds; what is missing is the bookkeeping of SendSet around them (sanity check passes,
-   registration, sizes). The oracle C01_holds_on compares the implementation's observation with
-   c01_spec directly on every run. *)
+(* (5) the observation the harness compares: inside the hypotheses (c01_hyp: registry template of
+   supported types with a positive minimum record length, well-typed records for it, template
+   id in 256..65535, one template record, observation domain below 2^32, both messages within
+   65535 bytes - 65507 for the datagram transports) and with both messages within the receive
+   buffer of pion/dtls when the transport is DTLS (dtls_fits), the model of two SendSet calls
+   (sanity check of the data set against the registered templates, registration after the
+   template send, sequence counter, UDP size limit) followed by the collector yields exactly
+   the rendering of what the application handed over: both calls report the message lengths,
+   two messages are delivered, same observation domain, template id, elements in order, same
+   records with every value bit-identical *)
+Theorem C01_oracle : forall c,
+  c01_hyp c = true -> dtls_fits c = true -> c01_model c = c01_spec c.
+Proof. exact c01_oracle. Qed.
+Print Assumptions C01_oracle.
+
+(* (6) without dtls_fits the statement is false for the code as it is (known finding F14): a
+   data message of 8180 bytes over DTLS is reported as sent and never delivered *)
+Theorem C01_refuted_dtls_big :
+  exists c, c01_hyp c = true /\ dtls_fits c = false /\ C01_holds_on c (c01_model c) = false.
+Proof. exact c01_refuted_dtls_big. Qed.
+Print Assumptions C01_refuted_dtls_big.
+
+(* (7) and so it is for a template set holding two template records (known finding F9): only the
+   first is delivered and stored *)
+Theorem C01_refuted_multi_template :
+  exists c, tpl_ok (k_tpl c) = true /\ recs_ok (k_tpl c) (k_recs c) = true /\ k_ntpl c = 2%nat /\
+            C01_holds_on c (c01_model c) = false.
+Proof. exact c01_refuted_multi_template. Qed.
+Print Assumptions C01_refuted_multi_template.
 
 Example C01_nonvacuous :
   let tpl := [mkIE "sourceIPv4Address" 8 Ipv4Address 0 4; mkIE "octetDeltaCount" 1 Unsigned64 0 8] in
@@ -76,3 +99,15 @@ Example C01_nonvacuous :
   recs_ok tpl [[(mkIE "sourceIPv4Address" 8 Ipv4Address 0 4, VIP (Some [x0a; x00; x00; x01]));
                 (mkIE "octetDeltaCount" 1 Unsigned64 0 8, VU64 18446744073709551615)]] = true.
 Proof. vm_compute. split; reflexivity. Qed.
+
+(* the hypotheses of C01_oracle are satisfiable, on every transport *)
+Example C01_oracle_nonvacuous :
+  let e1 := mkIE "sourceIPv4Address" 8 Ipv4Address 0 4 in
+  let e2 := mkIE "octetDeltaCount" 1 Unsigned64 0 8 in
+  forallb (fun tr =>
+    let c := {| k_transport := tr; k_obs := 4294967295; k_tid := 65535; k_ntpl := 1; k_dsel := 0;
+                k_tpl := [e1; e2];
+                k_recs := [[(e1, VIP (Some [x0a; x00; x00; x01])); (e2, VU64 18446744073709551615)]] |} in
+    c01_hyp c && dtls_fits c && String.eqb (c01_model c) (c01_spec c))
+    ["tcp"; "udp"; "tls"; "dtls"]%string = true.
+Proof. vm_compute. reflexivity. Qed.
